@@ -1,10 +1,18 @@
 import Proofs.C05.VarInt
+import Proofs.C05.Tx
 /-!
 # C05 — wire formats are canonical: parse and serialize are mutually inverse
 
-Property theorems only.  Serializer and size function are the *translated* source
+Property theorems only.  CompactSize: serializer and size function are the *translated* source
 (`Gen.VarInt.*`, regenerated from /repo on every run); the parser is the hand model
 `Btc.VarInt.parse` over the generated branch table, tied to the code by correspondence.
+Wire classes: hand models built from the generic codecs of `Model/C05/Codec.lean` (caps, marker,
+header length from `Generated/Wire.lean`), tied to the code by correspondence.
+
+`Btc.Wire.Lawful c` bundles the three laws of one class:
+  T1 `parse_ser`  valid t → c.parse (c.ser t ++ rest) = ok (t, rest)          (for every `rest`)
+  T2 `ser_parse`  c.parse b = ok (t, rest) → c.valid t ∧ b = c.ser t ++ rest
+  T3 `size_eq`    valid t → c.size t = (c.ser t).length
 -/
 namespace Props.C05
 open Btc Btc.VarInt Btc.Py
@@ -13,168 +21,166 @@ open Btc Btc.VarInt Btc.Py
     ValueError, and never leaves through a foreign exception. -/
 theorem varint_serialize_domain (i : Int) :
     (0 ≤ i ∧ i < 2 ^ 64 → ∃ b, Gen.VarInt.serialize i = .ok b) ∧
-    (¬ (0 ≤ i ∧ i < 2 ^ 64) → Gen.VarInt.serialize i = .error .value) := by
-  constructor
-  · rintro ⟨h0, h1⟩
-    obtain ⟨n, rfl⟩ := Int.eq_ofNat_of_zero_le h0
-    rw [serialize_nat]
-    have : n ≤ 18446744073709551615 := by omega
-    simp only [this, if_true]
-    repeat' split
-    all_goals exact ⟨_, rfl⟩
-  · intro h
-    by_cases h0 : 0 ≤ i
-    · obtain ⟨n, rfl⟩ := Int.eq_ofNat_of_zero_le h0
-      rw [serialize_nat]
-      have : ¬ n ≤ 18446744073709551615 := by omega
-      have h1 : ¬ n < 253 := by omega
-      have h2 : ¬ n ≤ 65535 := by omega
-      have h3 : ¬ n ≤ 4294967295 := by omega
-      simp [h1, h2, h3, this]
-    · unfold Gen.VarInt.serialize
-      have : i < 0 := by omega
-      simp [this]
-      rfl
+    (¬ (0 ≤ i ∧ i < 2 ^ 64) → Gen.VarInt.serialize i = .error .value) :=
+  Btc.VarInt.serialize_domain i
 
 /-- T1 (parse ∘ serialize, prefix-free): whatever follows the encoding is left unread, and the
     value comes back — or is refused as too big, exactly when it exceeds the cap. -/
 theorem varint_parse_serialize (i : Int) (b rest : Bytes) (m : Nat)
     (h : Gen.VarInt.serialize i = .ok b) :
-    parse (b ++ rest) m = if i.toNat > m then .error .toobig else .ok (i.toNat, rest) := by
-  have h0 : 0 ≤ i := by
-    by_cases h0 : 0 ≤ i
-    · exact h0
-    · have := (varint_serialize_domain i).2 (by omega)
-      rw [this] at h; cases h
-  obtain ⟨n, rfl⟩ := Int.eq_ofNat_of_zero_le h0
-  rw [serialize_nat] at h
-  simp only [Int.toNat_natCast]
-  split at h
-  · cases h
-    rename_i h1
-    have hx : (UInt8.ofNat n).toNat = n := by simp [UInt8.toNat_ofNat']; omega
-    simp only [List.cons_append, List.nil_append, parse_cons, hx]
-    have a1 : n ≠ 253 := by omega
-    have a2 : n ≠ 254 := by omega
-    have a3 : n ≠ 255 := by omega
-    simp [a1, a2, a3, checkMax]
-  · split at h
-    · cases h
-      rename_i h1 h2
-      simp only [List.cons_append, parse_cons]
-      simp [parseNumber_le 2 n rest 253 (by omega), h1, Except.bind, checkMax]
-    · split at h
-      · cases h
-        rename_i h1 h2 h3
-        simp only [List.cons_append, parse_cons]
-        have : ¬ n < 65536 := by omega
-        simp [parseNumber_le 4 n rest 65536 (by omega), this, Except.bind, checkMax]
-      · split at h
-        · cases h
-          rename_i h1 h2 h3 h4
-          simp only [List.cons_append, parse_cons]
-          have : ¬ n < 4294967296 := by omega
-          simp [parseNumber_le 8 n rest 4294967296 (by omega), this, Except.bind, checkMax]
-        · cases h
+    parse (b ++ rest) m = if i.toNat > m then .error .toobig else .ok (i.toNat, rest) :=
+  Btc.VarInt.parse_serialize i b rest m h
 
 /-- T2 (serialize ∘ parse): any byte string the parser accepts starts with exactly the canonical
     encoding of the value it returns; hence no non-minimal prefix and no short read is accepted. -/
 theorem varint_serialize_parse (b rest : Bytes) (v m : Nat)
     (h : parse b m = .ok (v, rest)) :
-    ∃ b', Gen.VarInt.serialize (v : Int) = .ok b' ∧ b = b' ++ rest := by
-  cases b with
-  | nil => simp [parse, parseWith] at h
-  | cons x xs =>
-    rw [parse_cons] at h
-    have hx : x.toNat < 256 := x.toNat_lt
-    have number : ∀ (k minimum : Nat) (p : UInt8), p = x →
-        (parseNumber xs k minimum).bind (checkMax m) = .ok (v, rest) →
-        minimum ≤ v ∧ v < 256 ^ k ∧ p :: xs = p :: leBytes k v ++ rest := by
-      intro k minimum p _ hp
-      unfold parseNumber at hp
-      split at hp
-      · cases hp
-      · rename_i hlen
-        simp only at hp
-        split at hp
-        · cases hp
-        · rename_i hmin
-          simp only [Except.bind, checkMax] at hp
-          split at hp
-          · cases hp
-          · cases hp
-            have hl : (xs.take k).length = k := by simp; omega
-            refine ⟨by omega, ?_, ?_⟩
-            · have := ofLE_lt (xs.take k); rwa [hl] at this
-            · have := leBytes_ofLE (xs.take k)
-              rw [hl] at this
-              rw [this, List.cons_append, List.take_append_drop]
-    rw [serialize_nat]
-    split at h
-    · rename_i e
-      obtain ⟨h1, h2, h3⟩ := number 2 253 x rfl h
-      have p : x = 253 := by apply UInt8.toNat_inj.mp; simpa using e
-      have a1 : ¬ v < 253 := by omega
-      have a2 : v ≤ 65535 := by omega
-      exact ⟨253 :: leBytes 2 v, by simp only [a1, a2, if_true, if_false], by rw [h3, p]⟩
-    · split at h
-      · rename_i _ e
-        obtain ⟨h1, h2, h3⟩ := number 4 65536 x rfl h
-        have p : x = 254 := by apply UInt8.toNat_inj.mp; simpa using e
-        have a1 : ¬ v < 253 := by omega
-        have a2 : ¬ v ≤ 65535 := by omega
-        have a3 : v ≤ 4294967295 := by omega
-        exact ⟨254 :: leBytes 4 v, by simp only [a1, a2, a3, if_true, if_false], by rw [h3, p]⟩
-      · split at h
-        · rename_i _ _ e
-          obtain ⟨h1, h2, h3⟩ := number 8 4294967296 x rfl h
-          have p : x = 255 := by apply UInt8.toNat_inj.mp; simpa using e
-          have a1 : ¬ v < 253 := by omega
-          have a2 : ¬ v ≤ 65535 := by omega
-          have a3 : ¬ v ≤ 4294967295 := by omega
-          have a4 : v ≤ 18446744073709551615 := by omega
-          exact ⟨255 :: leBytes 8 v, by simp only [a1, a2, a3, a4, if_true, if_false], by rw [h3, p]⟩
-        · rename_i n1 n2 n3
-          simp only [checkMax] at h
-          split at h
-          · cases h
-          · cases h
-            have a1 : x.toNat < 253 := by omega
-            refine ⟨_, by simp only [a1, if_true]; rfl, ?_⟩
-            simp
+    ∃ b', Gen.VarInt.serialize (v : Int) = .ok b' ∧ b = b' ++ rest :=
+  Btc.VarInt.serialize_parse b rest v m h
 
 /-- T3: the reported width is the length of the serialization (translated `_size` against the
     translated `serialize`, for every integer the latter accepts). -/
 theorem varint_size_eq_length (i : Int) (b : Bytes) (h : Gen.VarInt.serialize i = .ok b) :
-    Gen.VarInt.size i = b.length := by
-  have h0 : 0 ≤ i := by
-    by_cases h0 : 0 ≤ i
-    · exact h0
-    · have := (varint_serialize_domain i).2 (by omega)
-      rw [this] at h; cases h
-  obtain ⟨n, rfl⟩ := Int.eq_ofNat_of_zero_le h0
-  rw [serialize_nat] at h
-  unfold Gen.VarInt.size
-  split at h
-  · cases h; rename_i h1; have : (n:Int) < 253 := by omega
-    simp [this]
-  · rename_i h1
-    have a1 : ¬ (n:Int) < 253 := by omega
-    split at h
-    · cases h; rename_i h2; have : (n:Int) ≤ 65535 := by omega
-      simp [a1, this]
-    · rename_i h2
-      have a2 : ¬ (n:Int) ≤ 65535 := by omega
-      split at h
-      · cases h; rename_i h3; have : (n:Int) ≤ 4294967295 := by omega
-        simp [a1, a2, this]
-      · rename_i h3
-        have a3 : ¬ (n:Int) ≤ 4294967295 := by omega
-        split at h
-        · cases h; simp [a1, a2, a3]
-        · cases h
+    Gen.VarInt.size i = b.length :=
+  Btc.VarInt.size_eq_length i b h
 
--- non-vacuity: the hypotheses are met by concrete non-trivial values on each width
+/-! ## Generic codecs -/
+open Btc.Wire
+
+/-- On octets (`assert_no_trailing`), for every lawful class: the byte strings the parser accepts are
+    exactly the serializations of the valid objects, and parsing inverts serializing. Hence no
+    trailing byte, short read, non-minimal length prefix or superfluous marker is ever accepted. -/
+theorem accepted_iff_serialization {α : Type} (c : Codec α) (h : Lawful c) (b : Bytes) (t : α) :
+    c.parseAll b = .ok t ↔ c.valid t ∧ b = c.ser t :=
+  h.parseAll_iff b t
+
+/-- serializations of valid objects are prefix-free (what makes a list of objects parseable) and
+    in particular injective -/
+theorem serialization_prefix_free {α : Type} (c : Codec α) (h : Lawful c) (t u : α) (r s : Bytes)
+    (ht : c.valid t) (hu : c.valid u) (e : c.ser t ++ r = c.ser u ++ s) : t = u ∧ r = s :=
+  h.prefix_free t u r s ht hu e
+
+/-- fixed-width little/big-endian unsigned fields -/
+theorem uint_le_lawful (n : Nat) : Lawful (uintLE n) := lawful_uintLE n
+theorem uint_be_lawful (n : Nat) : Lawful (uintBE n) := lawful_uintBE n
+/-- fixed-width little-endian signed fields (two's complement) -/
+theorem int_le_lawful (n : Nat) : Lawful (intLE n) := lawful_intLE n
+/-- CompactSize under any cap `m` of the call site -/
+theorem compact_size_lawful (m : Nat) : Lawful (varInt m) := lawful_varInt m
+/-- `var_bytes`; valid = at most `var_int.MAX_SIZE` octets -/
+theorem var_bytes_lawful : Lawful varBytes := lawful_varBytes
+theorem var_bytes_valid_iff (b : Bytes) : varBytes.valid b ↔ b.length ≤ Gen.VarInt.MAX_SIZE :=
+  varBytes_valid b
+/-- two fields in sequence -/
+theorem pair_lawful {α β : Type} (a : Codec α) (b : Codec β) (ha : Lawful a) (hb : Lawful b) :
+    Lawful (pair a b) := lawful_pair ha hb
+/-- a CompactSize count followed by that many items -/
+theorem counted_list_lawful {α : Type} (m : Nat) (c : Codec α) (h : Lawful c) : Lawful (listOf m c) :=
+  lawful_listOf m h
+theorem counted_list_valid_iff {α : Type} (m : Nat) (c : Codec α) (l : List α) :
+    (listOf m c).valid l ↔ (l.length ≤ m ∧ l.length < 2 ^ 64) ∧ ∀ x ∈ l, c.valid x :=
+  listOf_valid m c l
+
+/-! ## Transaction family, header, block -/
+
+theorem outpoint_lawful : Lawful outPoint := lawful_outPoint
+theorem outpoint_valid_iff (o : OutPoint) : outPoint.valid o ↔ o.txId.length = 32 ∧ o.vout < 2 ^ 32 :=
+  outPoint_valid o
+theorem witness_lawful : Lawful witness := lawful_witness
+theorem txin_lawful : Lawful txIn := lawful_txIn
+theorem txin_valid_iff (i : TxIn) :
+    txIn.valid i ↔ outPoint.valid i.prevOut ∧ varBytes.valid i.scriptSig ∧ i.sequence < 2 ^ 32
+      ∧ i.witness = [] := txIn_valid i
+theorem txout_lawful : Lawful txOut := lawful_txOut
+theorem txout_valid_iff (o : TxOut) :
+    txOut.valid o ↔ (-(2 ^ 63 : Int) ≤ o.value ∧ o.value < 2 ^ 63) ∧ varBytes.valid o.script :=
+  txOut_valid o
+
+/-- T1 for transactions (`include_witness=True`): every structurally valid transaction -- any
+    version/locktime below 2^32, counts within the caps, and not the one shape "no input, exactly
+    one output" whose encoding *is* the segwit marker -- parses back from its serialization, and
+    the stream is left on the byte after it. -/
+theorem tx_parse_serialize (t : Tx) (rest : Bytes) (hv : Tx.Valid t) :
+    Tx.parse (Tx.ser true t ++ rest) = .ok (t, rest) := tx_parse_ser t rest hv
+
+/-- T2 for transactions: whatever `Tx.parse` accepts is exactly the serialization of the transaction
+    it returns (marker written iff some witness is non-empty) followed by what it left unread. -/
+theorem tx_serialize_parse (b : Bytes) (t : Tx) (rest : Bytes) (hp : Tx.parse b = .ok (t, rest)) :
+    Tx.Valid t ∧ b = Tx.ser true t ++ rest := tx_ser_parse b t rest hp
+
+/-- the stripped serialization (`include_witness=False`, what txid hashes) parses to the stripped
+    transaction -/
+theorem tx_parse_serialize_stripped (t : Tx) (rest : Bytes) (hv : Tx.Valid t) :
+    Tx.parse (Tx.ser false t ++ rest) = .ok (t.strip, rest) := tx_parse_ser_stripped t rest hv
+
+/-- segwit marker rule: an accepted encoding carries the marker `00 01` after the version exactly
+    when the transaction has a non-empty witness; so the marker with all-empty witnesses (the
+    "superfluous witness record") and a witness without marker are never accepted. -/
+theorem tx_marker_iff_segwit (b : Bytes) (t : Tx) (rest : Bytes) (hp : Tx.parse b = .ok (t, rest)) :
+    ((b.drop 4).take 2 = Gen.Wire.SEGWIT_MARKER ↔ t.isSegwit = true) := by
+  obtain ⟨hv, rfl⟩ := tx_ser_parse b t rest hp
+  obtain ⟨_, _, _, _, _, hamb⟩ := hv
+  have hd : ∀ x : Bytes, (leBytes 4 t.version ++ x).drop 4 = x := by
+    intro x; rw [List.drop_append_of_le_length (by simp)]; simp
+  unfold Tx.ser
+  simp only [Bool.true_and, List.append_assoc, hd]
+  cases hs : t.isSegwit with
+  | true => simp [marker_eq]
+  | false =>
+    have := no_marker t.vin t.vout (leBytes 4 t.lockTime ++ rest) hamb
+    simp only [Bool.false_eq_true, if_false, List.nil_append, iff_false]
+    intro h
+    rw [h] at this
+    simp at this
+
+/-- the superfluous witness record itself: marker, then one empty witness per input -/
+example : Tx.parse ([1,0,0,0, 0,1, 1] ++ List.replicate 32 7 ++ [0,0,0,0, 0, 0,0,0,0, 0, 0, 0,0,0,0])
+    = .error .superfluous := by decide
+
+/-- T3: `_serialized_size(include_witness)` is the length of `serialize(include_witness)`, for both
+    values of the flag and every CompactSize width of every count and length. -/
+theorem tx_size_eq_length (w : Bool) (t : Tx) (hv : Tx.Valid t) : Tx.size w t = (Tx.ser w t).length :=
+  tx_size_eq w t hv
+
+/-- weight = 3 · stripped length + total length; vsize = ⌈weight / 4⌉ -/
+theorem tx_weight_eq (t : Tx) (hv : Tx.Valid t) :
+    Tx.weight t = 3 * (Tx.ser false t).length + (Tx.ser true t).length ∧
+    4 * Tx.vsize t ≥ Tx.weight t ∧ 4 * Tx.vsize t < Tx.weight t + 4 := by
+  refine ⟨by simp only [Tx.weight, tx_size_eq _ t hv], ?_, ?_⟩ <;> (unfold Tx.vsize; omega)
+
+theorem tx_lawful : Lawful tx := lawful_tx
+
+/-- T4: for any hash function, txid and wtxid coincide when no input has a witness … -/
+theorem txid_eq_wtxid_of_no_witness (H : Bytes → Bytes) (t : Tx) (h : t.isSegwit = false) :
+    t.id H = t.wid H := by
+  simp [Tx.id, Tx.wid, Tx.ser, h]
+
+/-- … and the ids of a parsed transaction are those of the bytes: wtxid hashes exactly the accepted
+    octets, txid the octets of the stripped transaction. -/
+theorem wtxid_of_bytes (H : Bytes → Bytes) (b : Bytes) (t : Tx) (hp : tx.parseAll b = .ok t) :
+    t.wid H = (H b).reverse ∧ t.id H = (H (Tx.ser false t)).reverse := by
+  have := (lawful_tx.parseAll_iff b t).1 hp
+  exact ⟨by rw [this.2]; rfl, rfl⟩
+
+theorem block_header_lawful : Lawful blockHeader := lawful_blockHeader
+/-- a valid header serializes to exactly `_REQUIRED_LENGTH` (80) bytes -/
+theorem block_header_length (h : BlockHeader) (hv : blockHeader.valid h) :
+    (blockHeader.ser h).length = Gen.Wire.HEADER_LENGTH := blockHeader_length h hv
+theorem block_lawful : Lawful block := lawful_block
+
+-- non-vacuity: concrete valid objects on both sides of the marker rule
+def exIn : TxIn := ⟨⟨List.replicate 32 7, 1⟩, [0x51], 0xFFFFFFFE, []⟩
+def exTx : Tx := ⟨2, 0, [exIn], [⟨5000000000, [0x6a]⟩]⟩
+def exTxW : Tx := ⟨2, 9, [{ exIn with witness := [[1, 2], []] }], [⟨-1, []⟩]⟩
+example : tx.parseAll (Tx.ser true exTx) = .ok exTx := by decide
+example : tx.parseAll (Tx.ser true exTxW) = .ok exTxW := by decide
+example : exTxW.isSegwit = true ∧ (Tx.ser true exTxW).length = Tx.size true exTxW
+    ∧ Tx.weight exTxW = 3 * 61 + 68 := by decide
+example : Tx.parse (Tx.ser false exTxW) = .ok (exTxW.strip, []) := by decide
+/-- the shape T1 excludes really fails to round-trip (no input, one output) -/
+example : Tx.parse (Tx.ser true ⟨1, 0, [], [⟨0, []⟩]⟩) ≠ .ok (⟨1, 0, [], [⟨0, []⟩]⟩, []) := by decide
+
+-- non-vacuity (CompactSize): the hypotheses are met by concrete non-trivial values on each width
 example : Gen.VarInt.serialize 252 = .ok [252] := by decide
 example : Gen.VarInt.serialize 253 = .ok [253, 253, 0] := by decide
 example : Gen.VarInt.serialize 65536 = .ok [254, 0, 0, 1, 0] := by decide
